@@ -476,6 +476,22 @@ impl Backend for EngineBackend {
     }
 
     fn apply_full_snapshot(&mut self, items: &[(Key, In)]) -> bool {
+        // a BATCH OF REQUESTS (what an engine action records after sending): the opens through
+        // `record_in_flight_opens`, then the cancels through `record_in_flight_cancels`
+        if items.iter().all(|(_, i)| matches!(i, In::ReqOpen | In::ReqCancel)) {
+            let opens: Vec<OrderRequestOpen> = items
+                .iter()
+                .filter(|(_, i)| matches!(i, In::ReqOpen))
+                .map(|(k, _)| OrderRequestOpen {
+                    key: self.key(*k),
+                    state: RequestOpen { side: Side::Buy, price: Decimal::from(100), quantity: Decimal::from(QTY), kind: OrderKind::Limit, time_in_force: TimeInForce::GoodUntilCancelled { post_only: false } },
+                })
+                .collect();
+            let cancels: Vec<OrderRequestCancel> = items.iter().filter(|(_, i)| matches!(i, In::ReqCancel)).map(|(k, _)| OrderRequestCancel { key: self.key(*k), state: RequestCancel { id: None } }).collect();
+            self.state.record_in_flight_opens(opens.iter());
+            self.state.record_in_flight_cancels(cancels.iter());
+            return true;
+        }
         // all items must belong to one exchange (a snapshot is per exchange)
         let exchange = ExchangeIndex(self.exch_of_instr[items[0].0.0]);
         let mut per_instr: BTreeMap<usize, Vec<Order<ExchangeIndex, InstrumentIndex, OrderState<AssetIndex, InstrumentIndex>>>> =
@@ -558,7 +574,13 @@ fn run_steps_inner(backend: &mut dyn Backend, history: &[Step], stats: &mut RunS
         // (2) the snapshot as a whole leaves exactly the state the one-by-one delivery leaves.
         if let Step::Full(v) = step {
             let mut twin = backend.twin();
-            let singles: Vec<Step> = v.iter().map(|(k, i)| Step::One(*k, *i)).collect();
+            let request_batch = v.iter().all(|(_, i)| matches!(i, In::ReqOpen | In::ReqCancel));
+            // a request batch is recorded opens first, then cancels (each group in the listed order)
+            let singles: Vec<Step> = if request_batch {
+                v.iter().filter(|(_, i)| matches!(i, In::ReqOpen)).chain(v.iter().filter(|(_, i)| matches!(i, In::ReqCancel))).map(|(k, i)| Step::One(*k, *i)).collect()
+            } else {
+                v.iter().map(|(k, i)| Step::One(*k, *i)).collect()
+            };
             let mut twin_delivered: BTreeMap<Key, HashSet<D>> = delivered.clone();
             run_steps(twin.as_mut(), &singles, stats, &mut twin_delivered, last_fill_race).map_err(|(sig, detail, _)| (sig, format!("full snapshot {v:?}, delivered item by item: {detail}"), idx))?;
             let before = backend.observe();
@@ -575,6 +597,13 @@ fn run_steps_inner(backend: &mut dyn Backend, history: &[Step], stats: &mut RunS
                 return Err(("account_snapshot_differs_from_item_by_item_delivery", format!("full snapshot {v:?} (state before: {before:?}): {}", diff.join("; ")), idx));
             }
             *delivered = twin_delivered;
+            if request_batch {
+                let instrs: Vec<usize> = v.iter().map(|(k, _)| k.0).collect();
+                if instrs.len() >= 3 && instrs.windows(2).any(|w| w[0] != w[1]) && instrs.iter().enumerate().any(|(p, i)| instrs[..p].contains(i) && instrs[p - 1] != *i) {
+                    stats.scenarios.push("request_batch_returns_to_an_earlier_instrument");
+                }
+                continue;
+            }
             if v.len() > 1 {
                 stats.scenarios.push("full_account_snapshot_multi_order");
             }
@@ -806,6 +835,21 @@ fn random_history(rng: &mut Rng, engine: bool) -> Vec<Step> {
                 items.push((key, input));
             }
             h.push(Step::Full(items));
+        } else if engine && rng.chance(1, 10) {
+            // a batch of requests over interleaved instruments (A, B, A, ...), distinct orders
+            let mut items: Vec<(Key, In)> = Vec::new();
+            let a = rng.usize_below(n_instr);
+            let b = (a + 1 + rng.usize_below(n_instr - 1)) % n_instr;
+            for p in 0..rng.range_u(3, 5) {
+                let key = (if p % 2 == 0 { a } else { b }, rng.usize_below(n_cids));
+                if items.iter().any(|(kk, _)| *kk == key) {
+                    continue;
+                }
+                items.push((key, if rng.chance(2, 3) { In::ReqOpen } else { In::ReqCancel }));
+            }
+            if items.len() >= 2 {
+                h.push(Step::Full(items));
+            }
         } else {
             let key = (rng.usize_below(n_instr), rng.usize_below(n_cids));
             h.push(Step::One(key, random_input(rng)));
@@ -875,6 +919,7 @@ fn main() {
             "two_cids_interleaved",
             "full_account_snapshot_multi_order",
             "full_account_snapshot_lists_an_order_twice",
+            "request_batch_returns_to_an_earlier_instrument",
         ] {
             report.require(&format!("scenario:{s}"));
         }
